@@ -28,6 +28,5 @@ for i in 1 2 3; do (cd $W/mod && cp $DST/demo.cpp $DST/run_demo.sh . && cp $DST/
 git -C $C checkout -q -- .
 echo "== demo on unmodified tree /repo (3 runs)" | tee -a $LOG
 for i in 1 2 3; do (cd $W/base && cp $DST/demo.cpp $DST/run_demo.sh . && cp $DST/*.h . 2>/dev/null; timeout 600 bash ./run_demo.sh /repo > out.$i 2>&1; echo "rc=$? $(tail -1 out.$i | cut -c1-200)") | tee -a $LOG; done
-echo "== restoring confirm build" | tee -a $LOG
-ninja -C $C/_build > /tmp/confirm_inc.log 2>&1; tail -1 /tmp/confirm_inc.log >> $LOG
+# (the confirm build is brought back by the next intake's incremental build; sources are already reverted)
 rm -rf $W
